@@ -252,7 +252,7 @@ theorem integerToByteString_np (sem : Sem) (x y z : Value)
     (hpre : runPre .integerToByteString [x, y, z] (costSpec .integerToByteString).pre = .ok ()) :
     NP (callBuiltinCore sem .integerToByteString [x, y, z]) := by
   have hy : ∃ size, y = .con (.integer size) ∧ 0 ≤ size ∧ size ≤ 8192 := by
-    simp only [costSpec, runPre, getArg, List.getElem?_cons_zero, List.getElem?_cons_succ, bind, Res.bind] at hpre
+    simp only [costSpec, runPre, preStep, getArg, List.getElem?_cons_zero, List.getElem?_cons_succ, bind, Res.bind] at hpre
     cases hc : costAsSize .integerToByteString y with
     | ok v => exact costAsSize_ok_bounds hc
     | err => rw [hc] at hpre; cases hpre
@@ -276,7 +276,7 @@ theorem replicateByte_np (sem : Sem) (x y : Value)
     (hpre : runPre .replicateByte [x, y] (costSpec .replicateByte).pre = .ok ()) :
     NP (callBuiltinCore sem .replicateByte [x, y]) := by
   have hx : ∃ size, x = .con (.integer size) ∧ 0 ≤ size ∧ size ≤ 8192 := by
-    simp only [costSpec, runPre, getArg, List.getElem?_cons_zero, bind, Res.bind] at hpre
+    simp only [costSpec, runPre, preStep, getArg, List.getElem?_cons_zero, bind, Res.bind] at hpre
     cases hc : costAsSize .replicateByte x with
     | ok v => exact costAsSize_ok_bounds hc
     | err => rw [hc] at hpre; cases hpre
